@@ -38,7 +38,11 @@ Definition check_scase (c : scase) : bool :=
    evaluated on the generated configuration: well formed at every depth, and its identifier is the
    implementation-validated identifier of the node                                               *)
 Definition cty_of (c : scase) (tid k : bytes) : sty :=
-  match find (fun p => bytes_eqb (c_tid (fst p)) tid) (combine (s_classes c) (s_types c)) with
+  (* two versions of a class may share a type identifier (a class extended with defaulted parameters):
+     the declared type of k is taken from the first class with that identifier that declares k        *)
+  match find (fun p : class * list (bytes * sty) =>
+                bytes_eqb (c_tid (fst p)) tid && match assoc k (snd p) with Some _ => true | None => false end)
+             (combine (s_classes c) (s_types c)) with
   | Some p => ty_of (snd p) k
   | None => TObj
   end.
